@@ -215,9 +215,9 @@ class Layer(Module, ABC):
                 ``clear`` methods, if ``submodules`` is ``True``.
         """
         if submodules:
-            for connection in self.connections_:
+            for connection in self.connections_.values():
                 connection.clear(**kwargs)
-            for neuron in self.neurons_:
+            for neuron in self.neurons_.values():
                 neuron.clear(**kwargs)
 
     def add_cell(self, connection: str, neuron: str) -> Cell:
@@ -1186,9 +1186,9 @@ class RecurrentSerial(Layer):
             self.feedback_spikes = None
 
         if submodules:
-            for connection in self.connections_:
+            for connection in self.connections_.values():
                 connection.clear(**kwargs)
-            for neuron in self.neurons_:
+            for neuron in self.neurons_.values():
                 neuron.clear(**kwargs)
 
     def add_cell(self, *args, **kwargs) -> None:
